@@ -150,6 +150,8 @@ OpsNow ==
        THEN UNION { (CASE nm \in {"mp_println", "mp_suspend"}
                             -> { [op |-> nm, b |-> 0, dt |-> dt, m |-> TextOf(s, nlog)] : s \in (IF nm = "mp_suspend" THEN TextShapes \ {"e", "nl", "Tnl", "nlT"} ELSE TextShapes), dt \in DTs }
                        [] nm = "mp_clear" -> { [op |-> nm, b |-> 0, dt |-> dt] : dt \in DTs }
+                       [] nm = "mp_set_move_cursor" -> (* only before anything is drawn: the mode is documented for frames that keep their shape *)
+                                                       IF \A b \in S.ids : ~S.bars[b].drawn THEN { [op |-> nm, b |-> 0, dt |-> 0, n |-> 1] } ELSE {}
                        [] nm = "mp_set_alignment" -> { [op |-> nm, b |-> 0, dt |-> 0, a |-> a] : a \in {"top", "bottom"} \ {S.align} }
                        [] OTHER -> {}) : nm \in MpOps }
        ELSE {})
@@ -216,7 +218,7 @@ IAdvance(i, o, S0, S1) ==
               [] o.op \in {"mp_suspend", "suspend"} -> IPaint([i EXCEPT !.zl = 0, !.ll = 0], S1, FALSE)
               [] o.op = "drop" -> IF ~inord THEN i
                                   ELSE IZombie(IF S0.bars[o.b].fin = "no" THEN IPaint(i, S1, FALSE) ELSE i, S1, o.b)
-              [] o.op \in {"set_style", "restyle", "clone", "drop_one", "mp_set_alignment", "reset_eta", "reset_elapsed", "fail_at", "is_hidden", "downgrade", "upgrade"} -> i
+              [] o.op \in {"set_style", "restyle", "clone", "drop_one", "mp_set_alignment", "mp_set_move_cursor", "reset_eta", "reset_elapsed", "fail_at", "is_hidden", "downgrade", "upgrade"} -> i
               [] OTHER -> IF inord THEN IPaint(i, S1, FALSE) ELSE i
 
 Step == /\ Len(hist) < D
